@@ -10,6 +10,26 @@ use std::collections::{BTreeMap, HashMap};
 use std::io::{BufRead, Write};
 use std::sync::{Arc, Mutex};
 
+/// value transformation of a scenario: float metrics are driven with `amount * scale` and observed as `value / scale`
+/// (scale is a power of two, so both are exact); integer gauges are offset by `base` with wrapping arithmetic, so that a
+/// scenario can sit next to the i64 boundaries while the specification keeps talking about small integers.
+#[derive(Clone, Copy)]
+pub struct Xf {
+    pub scale: f64,
+    pub base: i64,
+}
+static XF_SCALE: std::sync::atomic::AtomicU64 = std::sync::atomic::AtomicU64::new(0x3ff0000000000000);
+static XF_BASE: std::sync::atomic::AtomicI64 = std::sync::atomic::AtomicI64::new(0);
+fn xf() -> Xf {
+    Xf { scale: f64::from_bits(XF_SCALE.load(std::sync::atomic::Ordering::Relaxed)), base: XF_BASE.load(std::sync::atomic::Ordering::Relaxed) }
+}
+fn set_xf(o: &Value) {
+    let scale = o.get("scale").map(crate::pm::fparse).unwrap_or(1.0);
+    let base = o.get("base").and_then(|x| x.as_i64()).unwrap_or(0);
+    XF_SCALE.store(scale.to_bits(), std::sync::atomic::Ordering::Relaxed);
+    XF_BASE.store(base, std::sync::atomic::Ordering::Relaxed);
+}
+
 #[derive(Clone)]
 pub enum Obj {
     Counter(Counter),
@@ -36,6 +56,15 @@ fn num(v: f64) -> Value {
 
 pub fn make_obj(o: &Value) -> Obj {
     let kind = o["kind"].as_str().unwrap();
+    set_xf(o);
+    let ob = make_obj_inner(o, kind);
+    if let Obj::IntGauge(g) = &ob {
+        g.set(xf().base);
+    }
+    ob
+}
+
+fn make_obj_inner(o: &Value, kind: &str) -> Obj {
     match kind {
         "counter" => Obj::Counter(Counter::new("c", "h").unwrap()),
         "intcounter" => Obj::IntCounter(IntCounter::new("c", "h").unwrap()),
@@ -118,16 +147,18 @@ fn collect_vec_pairs(mfs: Vec<proto::MetricFamily>, hist: bool) -> Value {
 pub fn exec(obj: &Obj, loc: &mut Locals, op: &Value) -> Value {
     let k = op["k"].as_str().unwrap();
     let v = op.get("v").and_then(|x| x.as_f64()).unwrap_or(0.0);
+    let vi = op.get("v").and_then(|x| x.as_i64()).unwrap_or(0);
     let vs: Vec<f64> = op.get("vs").and_then(|x| x.as_array()).map(|a| a.iter().map(|x| x.as_f64().unwrap()).collect()).unwrap_or_default();
+    let t = xf();
     match obj {
         Obj::Counter(c) => match k {
-            "inc" => { c.inc(); json!(0) }
-            "incby" => { c.inc_by(v); json!(0) }
-            "get" => num(c.get()),
+            "inc" => { if t.scale == 1.0 { c.inc() } else { c.inc_by(t.scale) }; json!(0) }
+            "incby" => { c.inc_by(v * t.scale); json!(0) }
+            "get" => num(c.get() / t.scale),
             "reset" => { c.reset(); json!(0) }
             "lflush" => {
                 let l = loc.lc.get_or_insert_with(|| c.local());
-                for x in &vs { l.inc_by(*x); }
+                for x in &vs { l.inc_by(*x * t.scale); }
                 l.flush();
                 json!(0)
             }
@@ -147,21 +178,21 @@ pub fn exec(obj: &Obj, loc: &mut Locals, op: &Value) -> Value {
             _ => panic!("op {}", k),
         },
         Obj::Gauge(g) => match k {
-            "set" => { g.set(v); json!(0) }
-            "inc" => { g.inc(); json!(0) }
-            "dec" => { g.dec(); json!(0) }
-            "add" => { g.add(v); json!(0) }
-            "sub" => { g.sub(v); json!(0) }
-            "get" => num(g.get()),
+            "set" => { g.set(v * t.scale); json!(0) }
+            "inc" => { if t.scale == 1.0 { g.inc() } else { g.add(t.scale) }; json!(0) }
+            "dec" => { if t.scale == 1.0 { g.dec() } else { g.sub(t.scale) }; json!(0) }
+            "add" => { g.add(v * t.scale); json!(0) }
+            "sub" => { g.sub(v * t.scale); json!(0) }
+            "get" => num(g.get() / t.scale),
             _ => panic!("op {}", k),
         },
         Obj::IntGauge(g) => match k {
-            "set" => { g.set(v as i64); json!(0) }
+            "set" => { g.set(t.base.wrapping_add(vi)); json!(0) }
             "inc" => { g.inc(); json!(0) }
             "dec" => { g.dec(); json!(0) }
-            "add" => { g.add(v as i64); json!(0) }
-            "sub" => { g.sub(v as i64); json!(0) }
-            "get" => json!(g.get()),
+            "add" => { g.add(vi); json!(0) }
+            "sub" => { g.sub(vi); json!(0) }
+            "get" => json!(g.get().wrapping_sub(t.base)),
             _ => panic!("op {}", k),
         },
         Obj::Hist { h, vec, reg, via } => match k {
@@ -271,10 +302,10 @@ fn children_json(mfs: Vec<proto::MetricFamily>, keys: &[String]) -> Value {
 /// which has no hook installed, so nothing here is a scheduling point).
 fn project(obj: &Obj, s: &Sched, names: &[String], keys: &[String]) -> Value {
     match obj {
-        Obj::Counter(c) => json!({"v": num(c.get())}),
+        Obj::Counter(c) => json!({"v": num(c.get() / xf().scale)}),
         Obj::IntCounter(c) => json!({"v": c.get()}),
-        Obj::Gauge(g) => json!({"v": num(g.get())}),
-        Obj::IntGauge(g) => json!({"v": g.get()}),
+        Obj::Gauge(g) => json!({"v": num(g.get() / xf().scale)}),
+        Obj::IntGauge(g) => json!({"v": g.get().wrapping_sub(xf().base)}),
         Obj::Hist { h, .. } => {
             let p = h.verif_peek();
             let nb = (p.len() - 1) / 2 - 2;
